@@ -178,6 +178,136 @@ func vC20KMeans(c *vCtx, d, maxLen, part, parts int) {
 	c.Bound = fmt.Sprintf("all training sequences of length 1..%d over the %d-point lattice", maxLen, len(pts))
 }
 
+// vC20KMeansSweep: structured training sets of EVERY size n in 1..maxN (dimension 3 and
+// 5, duplicates every 7th point), k around the interesting boundaries, three metrics.
+func vC20KMeansSweep(c *vCtx, maxN int) {
+	cfgS := "kmeans sweep"
+	for _, d := range []int{3, 5} {
+		for n := 1; n <= maxN; n++ {
+			if n%8 == 0 && c.Expired() {
+				c.Bound = fmt.Sprintf("kmeans sweep sizes 1..%d", n-1)
+				return
+			}
+			train := vStructuredVecs(d, n)
+			for i := 7; i < n; i += 7 {
+				train[i] = vCopyVec(train[i-7]) // duplicates
+			}
+			orig := vDeepCopy(train)
+			lo := make([]float32, d)
+			hi := make([]float32, d)
+			for j := 0; j < d; j++ {
+				lo[j], hi[j] = float32(math.Inf(1)), float32(math.Inf(-1))
+				for _, v := range train {
+					lo[j] = float32(math.Min(float64(lo[j]), float64(v[j])))
+					hi[j] = float32(math.Max(float64(hi[j]), float64(v[j])))
+				}
+			}
+			ks := map[int]bool{1: true, 2: true, 3: true, 8: true, 16: true, 17: true, n - 1: true, n: true, n + 1: true, n / 2: true}
+			for k := range ks {
+				if k <= 0 {
+					continue
+				}
+				for _, metric := range []DistanceKind{Euclidean, L2Squared, Cosine} {
+					dist, _ := NewDistance(metric)
+					c.Evaluations++
+					desc := fmt.Sprintf("d=%d n=%d k=%d metric=%s", d, n, k, metric)
+					cen, mp := KMeans(train, k, dist, 100)
+					if !vDeepEq(train, orig) {
+						c.Violation("kmeans-modified-input", "sweep", cfgS, nil, desc)
+						train = vDeepCopy(orig)
+					}
+					want := k
+					if n < k {
+						want = n
+					}
+					if len(cen) != want || len(mp) != n {
+						c.Violation("kmeans-centroid-count", "sweep", cfgS, nil, fmt.Sprintf("%s: %d centroids / mapping %d", desc, len(cen), len(mp)))
+						continue
+					}
+					for _, ce := range cen {
+						for j, x := range ce {
+							if math.IsNaN(float64(x)) || math.IsInf(float64(x), 0) {
+								c.Violation("kmeans-centroid-not-finite", "sweep", cfgS, nil, desc)
+							} else if metric != Cosine && (x < lo[j] || x > hi[j]) {
+								c.Violation("kmeans-centroid-outside-bounding-box", "sweep", cfgS, nil, fmt.Sprintf("%s: centroid %v outside [%v,%v]", desc, ce, lo, hi))
+							}
+						}
+					}
+					for _, m := range mp {
+						if m < 0 || m >= len(cen) {
+							c.Violation("kmeans-mapping-index", "sweep", cfgS, nil, desc)
+						}
+					}
+					cen2, mp2 := KMeans(train, k, dist, 100)
+					if !vDeepEq(cen, cen2) || !vIntsEq(mp, mp2) {
+						c.Violation("kmeans-nondeterministic", "sweep", cfgS, nil, desc)
+					}
+					cen3, mp3 := KMeans(train, k, dist, 200)
+					if vDeepEq(cen, cen3) && vIntsEq(mp, mp3) {
+						for i, v := range train {
+							best := float32(math.Inf(1))
+							for _, ce := range cen {
+								if dd := dist.Calculate(v, ce); dd < best {
+									best = dd
+								}
+							}
+							if got := dist.Calculate(v, cen[mp[i]]); got > best {
+								c.Violation("kmeans-not-nearest-when-converged", "sweep", cfgS, nil, fmt.Sprintf("%s: vector %d", desc, i))
+								break
+							}
+						}
+						c.Nontrivial("kms|" + desc)
+					}
+				}
+			}
+		}
+	}
+	c.Sample("d in {3,5}, n structured points (every 7th duplicated) for every n, k in {1,2,3,8,16,17,n/2,n-1,n,n+1}, 3 metrics")
+	c.Bound = fmt.Sprintf("kmeans sweep sizes 1..%d", maxN)
+}
+
+// vC20QuantLengths: every vector length 1..maxL for the three quantisers (unrolled loops).
+func vC20QuantLengths(c *vCtx, maxL int) {
+	cfgS := "quantizers lengths"
+	f32, _ := NewQuantizer(FullPrecision)
+	f16, _ := NewQuantizer(HalfPrecision)
+	i8 := &Int8Quantizer{}
+	i8.Train([][]float32{{-3.3, 1, 2}})
+	for l := 0; l <= maxL; l++ {
+		v := make([]float32, l)
+		for i := range v {
+			v[i] = float32((i*7)%13-6) * 0.5 // within +-3.3, all exactly representable in float16
+		}
+		orig := vCopyVec(v)
+		c.Evaluations++
+		for name, q := range map[string]Quantizer{"float32": f32, "float16": f16, "int8": i8} {
+			st, err := q.Quantize(v)
+			if err != nil || !vBitsEq(v, orig) {
+				c.Violation("quantize-length-sweep", name, cfgS, nil, fmt.Sprintf("len=%d err=%v input modified=%v", l, err, !vBitsEq(v, orig)))
+				continue
+			}
+			out, err := q.Dequantize(st)
+			if err != nil || len(out) != l {
+				c.Violation("quantize-length-sweep", name, cfgS, nil, fmt.Sprintf("len=%d: dequantized length %d err=%v", l, len(out), err))
+				continue
+			}
+			for i := range out {
+				tol := 0.0
+				if name == "int8" {
+					tol = 3.3/254*(1+1e-5) + 3.3e-6
+				}
+				if math.Abs(float64(out[i])-float64(orig[i])) > tol {
+					c.Violation("quantize-length-sweep", name, cfgS, nil, fmt.Sprintf("len=%d component %d: %v -> %v", l, i, orig[i], out[i]))
+					break
+				}
+			}
+		}
+		c.Nontrivial(fmt.Sprintf("qlen|%d", l))
+	}
+	c.Sample("vectors of every length 0..maxL through float32 / float16 / int8 round trips")
+	c.Bound = fmt.Sprintf("vector lengths 0..%d", maxL)
+}
+
 func vC20TrainTwice(c *vCtx, tier string) {
 	for _, cfg := range vC02Configs(tier) {
 		if cfg.Kind != "ivf" && cfg.Kind != "pq" && cfg.Kind != "ivfpq" {
@@ -439,6 +569,12 @@ func init() {
 				p := p
 				sh = append(sh, vShard{Name: fmt.Sprintf("kmeans/d2/part%d", p), Run: func(c *vCtx) { vC20KMeans(c, 2, l2, p, parts) }})
 			}
+			sweepN, qlen := 80, 70
+			if tier == "thorough" {
+				sweepN, qlen = 300, 600
+			}
+			sh = append(sh, vShard{Name: "kmeans/sweep", Run: func(c *vCtx) { vC20KMeansSweep(c, sweepN) }})
+			sh = append(sh, vShard{Name: "quantizers/lengths", Run: func(c *vCtx) { vC20QuantLengths(c, qlen) }})
 			sh = append(sh, vShard{Name: "train-twice", Run: func(c *vCtx) { vC20TrainTwice(c, tier) }})
 			qparts := 8
 			for p := 0; p < qparts; p++ {
@@ -453,6 +589,10 @@ func init() {
 				vC20KMeans(c, 1, 4, 0, 1)
 			case strings.HasPrefix(v.Config, "kmeans d=2"):
 				vC20KMeans(c, 2, 3, 0, 1)
+			case v.Config == "kmeans sweep":
+				vC20KMeansSweep(c, 300)
+			case v.Config == "quantizers lengths":
+				vC20QuantLengths(c, 600)
 			case strings.HasPrefix(v.Config, "train-twice"):
 				vC20TrainTwice(c, "thorough")
 			default:
